@@ -171,8 +171,11 @@ TraceNext == Call \/ Ret \/ Quiesce \/ Reset \/ Internal
 TraceSpec == TraceInit /\ [][TraceNext]_tvars
 
 \* ---------------------------------------------------------------- acceptance
-\* the furthest log position reached (TLC register 1), reported at the end
-Progress == IF TLCGet(1) < l THEN TLCSet(1, l) ELSE TRUE
+\* State constraint evaluated on every new state: remembers the furthest log position reached (TLC register 1)
+\* and stops TLC as soon as one behaviour has consumed the whole log (one witness is enough; the driver runs TLC
+\* with the LIFO state queue, so a valid log is explained in roughly linear time, an invalid one exhaustively).
+Progress == IF l = NLog + 1 THEN PrintT(<<"TRACE-ACCEPTED", NLog>>) /\ TLCSet(1, l) /\ TLCSet("exit", TRUE)
+            ELSE IF TLCGet(1) < l THEN TLCSet(1, l) ELSE TRUE
 TraceAccepted == /\ PrintT(<<"TRACE-PROGRESS", TLCGet(1) - 1, NLog>>)
                  /\ TLCGet(1) = NLog + 1
 =============================================================================
